@@ -1146,6 +1146,7 @@ class PDFPageInterpreter:
         """
         self.do_Tw(aw)
         self.do_Tc(ac)
+        self.do_T_a()
         self.do_TJ([s])
 
     def do_BI(self) -> None:
